@@ -6,6 +6,7 @@ import (
 	"math"
 	"path/filepath"
 	"strings"
+	"time"
 
 	"github.com/glebziz/fs_db"
 	"github.com/glebziz/fs_db/internal/verif/simrt"
@@ -121,7 +122,7 @@ func init() {
 			return c
 		}})
 	Register(seqProp{id: "C02",
-		rule: "cases: one driver interleaves up to 6 open transactions (all four levels) and autocommit calls: Begin/Set/Delete/Get/GetKeys/Commit/Rollback, 2-4 keys, 15-60 steps, collector/timer/background windows at boundaries; every 5th case is a deep chain (1-2 keys, 150-1500 versions, snapshot transactions begun at many points, collector in between); after every data step every open transaction and the autocommit caller read every key and GetKeys; distinct = hash(ops, switch trace); non-trivial = at least two transactions and two writes",
+		rule: "cases: one driver interleaves up to 6 open transactions (all four levels) and autocommit calls: Begin/Set/Delete/Get/GetKeys/Commit/Rollback, 2-4 keys, 15-60 steps, collector/timer/background windows at boundaries; every 5th case is a deep chain (1-2 keys, 150-1500 versions, snapshot transactions begun at many points, collector in between); every 6th case fails the storage update of one write inside a transaction (half of them the first write of its transaction; before its function runs or at its commit step); after every data step every open transaction and the autocommit caller read every key and GetKeys; distinct = hash(ops, switch trace); non-trivial = at least two transactions and two writes",
 		runs: [2]int{5000, 160000},
 		gen: func(r *simrt.Rand, idx int, tier string) SeqCase {
 			if idx%5 == 4 {
@@ -131,7 +132,35 @@ func init() {
 				}
 				return genDeepChain(r, "C02", n)
 			}
-			return genSeqCase(r, seqProfile{prop: "C02", steps: [2]int{15, 60}, keys: [2]int{2, 4}, maxTx: 6, txWeight: 70, ctlWeight: 12, readback: "all", held: 3, heldW: 3})
+			c := genSeqCase(r, seqProfile{prop: "C02", steps: [2]int{15, 60}, keys: [2]int{2, 4}, maxTx: 6, txWeight: 70, ctlWeight: 12, readback: "all", held: 3, heldW: 3})
+			if idx%6 == 3 {
+				// the storage update of one write inside a transaction fails (half of the time the
+				// first write of its transaction): the write is not applied, the transaction stays
+				// usable, and nobody's view may change because of it
+				var first, any []int
+				seen := map[int]bool{}
+				for i, o := range c.Ops {
+					if (o.K == "set" || o.K == "del") && o.Key != "" && o.Tx > 0 {
+						any = append(any, i)
+						if !seen[o.Tx] {
+							first = append(first, i)
+						}
+						seen[o.Tx] = true
+					}
+					if o.K == "commit" || o.K == "rollback" {
+						delete(seen, o.Tx)
+					}
+				}
+				cand := any
+				if idx%12 == 3 && len(first) > 0 {
+					cand = first
+				}
+				if len(cand) > 0 {
+					c.FaultOps = []int{cand[r.Intn(len(cand))]}
+					c.FaultLate = idx%24 >= 12
+				}
+			}
+			return c
 		}})
 	Register(seqProp{id: "C03",
 		rule: "cases: as C02 but biased to overlapping write sets (2/3 of writes hit one key), several writes per key inside a transaction, deletes, autocommit writes between Begin and Commit; every 4th case injects a Badger update failure into one commit or autocommit write; checked: error class of every Commit/Rollback against the model (serialization error iff a written key has a newer committed version) and a read-back of all keys by all actors after every step; non-trivial = at least one transaction and two writes",
@@ -173,7 +202,7 @@ func init() {
 			return genSeqCase(r, seqProfile{prop: "C13", steps: [2]int{20, 60}, keys: [2]int{2, 3}, maxTx: 5, txWeight: 65, ctlWeight: 4, late: true, reopen: rp, readback: "all"})
 		}})
 	Register(propC14{seqProp{id: "C14",
-		rule: "three quarters of the cases: fault-free sequential histories of autocommit and transactional writes, deletes, commits, failed commits and rollbacks (15-60 steps, contents up to 200 KiB), optional reopen with jobs still queued; then all transactions are ended, the world runs to exact quiescence, one collection pass, quiescence; one quarter: small concurrent programs (the generators of C06 and C07) under seeded schedules, then the same end game; oracle: the regular files under all roots are in bijection with the keys GetKeys returns and byte-equal to their contents; non-trivial = some key written at least twice (sequential) / client operations overlapped (concurrent)",
+		rule: "three quarters of the cases: fault-free sequential histories of autocommit and transactional writes, deletes, commits, failed commits and rollbacks (15-60 steps, contents up to 200 KiB), optional reopen with jobs still queued; one case in a hundred: a transaction leaving 1000-2600 contents behind at once; one in a hundred: a backlog of 1100-8200 versions becoming collectable between two collector passes (optionally held back by an old snapshot transaction until the end); then all transactions are ended, the world runs to exact quiescence, one collection pass, quiescence; one quarter: small concurrent programs (the generators of C06 and C07) under seeded schedules, then the same end game; oracle: the regular files under all roots are in bijection with the keys GetKeys returns and byte-equal to their contents; non-trivial = some key written at least twice (sequential) / client operations overlapped (concurrent)",
 		runs: [2]int{10000, 160000},
 		gen: func(r *simrt.Rand, idx int, tier string) SeqCase {
 			rp := 0
@@ -183,7 +212,7 @@ func init() {
 			return genSeqCase(r, seqProfile{prop: "C14", steps: [2]int{15, 60}, keys: [2]int{2, 4}, maxTx: 4, txWeight: 55, ctlWeight: 8, reopen: rp, big: true, readback: "auto", walk: "final", deleteHeavy: r.Intn(2) == 0, overlap: r.Intn(2) == 0, heldW: 3})
 		}}})
 	Register(seqProp{id: "C17",
-		rule: "cases: 150-600 tiny writes interleaved with deletes, collector runs, drains and reopenings, directory limit at its clamp (config values 0-150 generated), 1-3 roots; after every step a walk of the roots: every regular file at root/<uuid>/<uuid>, a uuid directory per root once a write was attempted, no directory above the limit, a directory that was full and regained room receives a new file before the chance of a uniform choice among the directories below the limit missing it that long falls under 1e-12 (about 70 writes with 3 candidates, 210 with 8); non-trivial = at least 100 writes (directories rotate)",
+		rule: "cases: 150-600 tiny writes interleaved with deletes, collector runs, drains and reopenings, directory limit at its clamp (config values 0-150 generated), 1-3 roots; in a third of the cases the creation of a directory fails now and then, in another third the listing of a directory that is full fails (EIO) at the moment it is due to be rotated out; after every step a walk of the roots: every regular file at root/<uuid>/<uuid>, a uuid directory per root once a write was attempted, no directory above the limit, a directory that was full and regained room receives a new file before the chance of a uniform choice among the directories below the limit missing it that long falls under 1e-12 (about 70 writes with 3 candidates, 210 with 8); non-trivial = at least 100 writes (directories rotate)",
 		runs: [2]int{600, 20000},
 		gen: func(r *simrt.Rand, idx int, tier string) SeqCase {
 			c := genSeqCase(r, seqProfile{prop: "C17", steps: [2]int{150, 600}, keys: [2]int{4, 8}, ctlWeight: 6, reopen: 1, readback: "none", walk: "shape", deleteHeavy: idx%2 == 0})
@@ -232,6 +261,14 @@ func init() {
 					c.MkdirFaultAt = append(c.MkdirFaultAt, 20+r.Intn(len(c.Ops)-20))
 				}
 			}
+			if idx%3 == 1 {
+				// a full directory cannot be listed at the moment it is due to be rotated out (EIO
+				// on its ReadDir): the write that meets this fails or goes elsewhere, and the directory
+				// must not grow beyond its limit
+				for k := 0; k < 2+r.Intn(3); k++ {
+					c.ReadDirFullAt = append(c.ReadDirFullAt, 20+r.Intn(len(c.Ops)-20))
+				}
+			}
 			if len(c.World.Roots) >= 2 && idx%4 == 0 {
 				// an operator takes a root out of the configuration: from the next reopen on nothing
 				// new may be put there (what it holds stays readable and is collected as usual)
@@ -241,6 +278,11 @@ func init() {
 				for i := range c.MkdirFaultAt {
 					if c.MkdirFaultAt[i] >= at {
 						c.MkdirFaultAt[i] += 2
+					}
+				}
+				for i := range c.ReadDirFullAt {
+					if c.ReadDirFullAt[i] >= at {
+						c.ReadDirFullAt[i] += 2
 					}
 				}
 			}
@@ -454,6 +496,44 @@ func (p propC14) Gen(r *simrt.Rand, idx int, tier string) any {
 		default:
 			// a conflicting autocommit write first: at RepeatableRead/Serializable the commit is refused
 			c.Ops = append(c.Ops, Op{K: "set", Key: "big-0000", ID: 5, Size: 30}, Op{K: "commit", Tx: 1})
+		}
+		c.Ops = append(c.Ops, Op{K: "drain"})
+		return C14Case{Seq: &c}
+	}
+	if idx%100 == 58 {
+		// a backlog: thousands of versions become collectable between two collector passes
+		// (autocommit overwrites and deletes of a few keys; half of the time an old snapshot
+		// transaction holds the collector back over the whole stretch and ends just before the end
+		// game) - more than any per-pass budget the collector might have
+		c := SeqCase{Prop: "C14", ReadBack: "none", Walk: "final"}
+		c.Sched = SchedSpec{Seed: r.Uint64(), Strategy: "seqbg", MaxSteps: 40_000_000}
+		c.World = genWorldSpec(r)
+		c.World.GCPeriodNs = int64(time.Hour)
+		nk := 1 + r.Intn(6)
+		for i := 0; i < nk; i++ {
+			c.Keys = append(c.Keys, fmt.Sprintf("hot-%d", i))
+		}
+		for i, k := range c.Keys {
+			c.Ops = append(c.Ops, Op{K: "set", Key: k, ID: uint64(1 + i), Size: 12})
+		}
+		held := r.Intn(2) == 0
+		if held {
+			c.Ops = append(c.Ops, Op{K: "begin", Tx: 1, Level: 2 + r.Intn(2)}, Op{K: "get", Tx: 1, Key: c.Keys[0]})
+		}
+		n := []int{1100, 4001, 4100, 5000, 8200}[r.Intn(5)]
+		for i := 0; i < n; i++ {
+			k := c.Keys[r.Intn(nk)]
+			if r.Intn(12) == 0 {
+				c.Ops = append(c.Ops, Op{K: "del", Key: k})
+			} else {
+				c.Ops = append(c.Ops, Op{K: "set", Key: k, ID: uint64(100 + i), Size: 9 + i%7})
+			}
+			if held && i%1500 == 1499 {
+				c.Ops = append(c.Ops, Op{K: "gc", N: 1}) // a pass that may collect nothing the snapshot needs
+			}
+		}
+		if held {
+			c.Ops = append(c.Ops, Op{K: []string{"commit", "rollback"}[r.Intn(2)], Tx: 1})
 		}
 		c.Ops = append(c.Ops, Op{K: "drain"})
 		return C14Case{Seq: &c}
